@@ -3,10 +3,13 @@
 //! (2) program-level lock-step shadow (hook H3) during real VM runs.
 use crate::common::*;
 use crate::gen;
+#[allow(unused_imports)]
 use crate::rng::Rng;
 use crate::spaces;
 use serde_json::json;
+#[allow(unused_imports)]
 use std::collections::HashSet;
+#[allow(unused_imports)]
 use std::hash::{Hash, Hasher};
 
 const NSLOTS: usize = 3;
